@@ -431,6 +431,147 @@ pub open spec fn img_rpsi(pt: int, data: Seq<u8>, overrun: int) -> Seq<u8> {
     }) + zeros(rpsi_size(n) - n - 2)
 }
 
+// ---- RFC 3550 6.5 SDES ----------------------------------------------------------------------------------
+// chunk:  SSRC (32) | item* | null octet(s) up to the next 32-bit boundary        item: type (8) | length (8) | value
+// PRIV (type 8) value:  prefix length (8) | prefix | value
+/// the item that starts at `p` lies inside d[..end] and, if PRIV, its prefix lies inside the item
+pub open spec fn item_ok(d: Seq<u8>, p: int, end: int) -> bool {
+    &&& 0 <= p
+    &&& p + 2 <= end
+    &&& p + 2 + d[p + 1] <= end
+    &&& (d[p] == 8 ==> d[p + 1] >= 1 && d[p + 2] as int + 1 <= d[p + 1] as int)
+}
+
+pub open spec fn item_end(d: Seq<u8>, p: int) -> int {
+    p + 2 + d[p + 1]
+}
+
+/// outcome of walking the TLV items of a chunk from p: Term(starts, t) = reached the terminating null at t,
+/// End(starts) = ran exactly to the end without a terminator, Bad = an item does not fit / a PRIV prefix overruns
+pub enum Walk {
+    Term(Seq<int>, int),
+    End(Seq<int>),
+    Bad,
+}
+
+pub open spec fn walk(d: Seq<u8>, p: int) -> Walk
+    decreases d.len() - p,
+{
+    if p < 0 || p > d.len() {
+        Walk::Bad
+    } else if p == d.len() {
+        Walk::End(Seq::empty())
+    } else if d[p] == 0 {
+        Walk::Term(Seq::empty(), p)
+    } else if !item_ok(d, p, d.len() as int) {
+        Walk::Bad
+    } else {
+        match walk(d, item_end(d, p)) {
+            Walk::Term(st, t) => Walk::Term(seq![p] + st, t),
+            Walk::End(st) => Walk::End(seq![p] + st),
+            Walk::Bad => Walk::Bad,
+        }
+    }
+}
+
+pub open spec fn all_zero(d: Seq<u8>, a: int, b: int) -> bool {
+    forall|i: int| a <= i < b ==> d[i] == 0
+}
+
+/// a chunk that is well-formed per RFC 3550 (d = the bytes from the chunk's SSRC on): items, a terminating null and
+/// null fill to the next 32-bit boundary; yields (item starts, chunk length)
+pub open spec fn rfc_chunk(d: Seq<u8>) -> Option<(Seq<int>, int)> {
+    if d.len() < 8 {
+        None
+    } else {
+        match walk(d, 4) {
+            Walk::Term(st, t) => if pad4(t + 1) <= d.len() && all_zero(d, t, pad4(t + 1)) {
+                Some((st, pad4(t + 1)))
+            } else {
+                None
+            },
+            _ => None,
+        }
+    }
+}
+
+/// strings the property demands to be rejected: an item overruns the chunk data, a PRIV prefix overruns its item,
+/// or the fill after the terminating null is cut short / holds a non-zero octet
+pub open spec fn chunk_must_reject(d: Seq<u8>) -> bool {
+    d.len() >= 4 && match walk(d, 4) {
+        Walk::Bad => true,
+        Walk::Term(st, t) => !(pad4(t + 1) <= d.len() && all_zero(d, t, pad4(t + 1))),
+        Walk::End(st) => false,
+    }
+}
+
+/// what the parser accepts (the RFC-well-formed chunks plus the ambiguous "no terminator, ends on a boundary" case)
+pub open spec fn chunk_accept(d: Seq<u8>) -> Option<(Seq<int>, int)> {
+    if d.len() < 4 {
+        None
+    } else {
+        match walk(d, 4) {
+            Walk::Term(st, t) => if pad4(t + 1) <= d.len() && all_zero(d, t, pad4(t + 1)) {
+                Some((st, pad4(t + 1)))
+            } else {
+                None
+            },
+            Walk::End(st) => if d.len() % 4 == 0 {
+                Some((st, d.len() as int))
+            } else {
+                None
+            },
+            Walk::Bad => None,
+        }
+    }
+}
+
+/// chunk starts of the SDES body d[..end] from offset c (every chunk accepted, nothing left over)
+pub open spec fn sdes_chunks(d: Seq<u8>, c: int, end: int) -> Option<Seq<int>>
+    decreases end - c,
+{
+    if c < 0 || c > end || end > d.len() {
+        None
+    } else if c == end {
+        Some(Seq::empty())
+    } else {
+        match chunk_accept(d.subrange(c, end)) {
+            None => None,
+            Some((st, n)) => if n <= 0 {
+                None
+            } else {
+                match sdes_chunks(d, c + n, end) {
+                    None => None,
+                    Some(cs) => Some(seq![c] + cs),
+                }
+            },
+        }
+    }
+}
+
+pub open spec fn sdes_body_end(s: Seq<u8>) -> int {
+    s.len() - pad_count(s)
+}
+
+/// an SDES packet that is well-formed per RFC 3550: framed, every chunk RFC-well-formed, SC = number of chunks
+pub open spec fn rfc_sdes_chunks(d: Seq<u8>, c: int, end: int) -> Option<Seq<int>>
+    decreases end - c,
+{
+    if c < 0 || c > end || end > d.len() {
+        None
+    } else if c == end {
+        Some(Seq::empty())
+    } else {
+        match rfc_chunk(d.subrange(c, end)) {
+            None => None,
+            Some((st, n)) => match rfc_sdes_chunks(d, c + n, end) {
+                None => None,
+                Some(cs) => Some(seq![c] + cs),
+            },
+        }
+    }
+}
+
 // ---- error truthfulness (property C18) ------------------------------------------------------------
 pub open spec fn err_truthful(s: Seq<u8>, e: crate::RtcpParseError, own_pt: int) -> bool {
     match e {
